@@ -9,6 +9,7 @@ import QSP.Model.Ball
 import QSP.Model.Validators
 import QSP.Model.SymQSP
 import QSP.Model.Jacobian
+import QSP.Model.Generators
 open QSP QSP.Proto
 
 def bad : String := "bad-op"
@@ -28,6 +29,13 @@ def showLPE : Except Err (LP Rat) → String := showExcept showLP
 def showV : Except Err VOut → String
   | .ok v => s!"{v.ok} {v.stage} {showRat v.bound} {v.evals}"
   | .error e => showErr e
+
+def showGen : Except Err GenOut → String
+  | .ok (.coefs c) => s!"coefs {showRatList c}"
+  | .ok (.withScale c sc) => s!"scale {showRatList c} {showRat sc}"
+  | .error e => showErr e
+
+def parseOpts (eb rs cb : String) : GenOpts := ⟨eb = "1", rs = "1", cb = "1"⟩
 
 def parseOp (s : String) : Option (Op Rat) :=
   match s.splitOn ":" with
@@ -215,6 +223,27 @@ def handle (toks : List String) : String :=
       | some (k, e, .crit) => s!"{k} {showRat e} crit"
       | none => "none"
     | _, _, _ => bad
+  -- generators -----------------------------------------------------------------------------
+  | ["gen.erf", par, degree, eb, rs, cb, maxScale, pmAbs, fit] =>
+    match par.toNat?, degree.toNat?, parseRat maxScale, parseRat pmAbs, parseRatList fit with
+    | some p, some d, some ms, some pm, some f => showGen (erfGenerate p d (parseOpts eb rs cb) ms f pm)
+    | _, _, _, _, _ => bad
+  | ["gen.cos", eb, rs, cb, j] =>
+    match parseRatList j with
+    | some j => showGen (.ok (cosGenerate (parseOpts eb rs cb) j))
+    | none => bad
+  | ["gen.sin", eb, rs, cb, j] =>
+    match parseRatList j with
+    | some j => showGen (.ok (sinGenerate (parseOpts eb rs cb) j))
+    | none => bad
+  | ["gen.inv", eb, rs, cb, pmAbs, g] =>
+    match parseRat pmAbs, parseRatList g with
+    | some pm, some g => showGen (.ok (invGenerate (parseOpts eb rs cb) g pm))
+    | _, _ => bad
+  | ["gen.invrect", rs, s1, s2, ci, cr] =>
+    match parseRat s1, parseRat s2, parseRatList ci, parseRatList cr with
+    | some s1, some s2, some ci, some cr => showGen (.ok (invRectGenerate (rs = "1") ci cr s1 s2))
+    | _, _, _, _ => bad
   -- sup-norm certificate -----------------------------------------------------------------
   | ["sup.real", bnd, depth, d, l] =>
     match parseRat bnd, depth.toNat?, d.toInt?, parseRatList l with
